@@ -764,6 +764,38 @@ def _meshgrid(*ts, indexing="ij"):
     return tuple(T(m) for m in np.meshgrid(*[_obj(A(t)) for t in ts], indexing=indexing))
 
 
+@handler("grid_sample")
+def _grid_sample(inp, grid, mode="bilinear", padding_mode="zeros", align_corners=None):
+    """bilinear F.grid_sample for a *concrete* sampling grid and symbolic input (N, C, H, W)"""
+    if mode != "bilinear" or padding_mode != "zeros":
+        raise Unsupported(f"grid_sample mode={mode} padding={padding_mode}")
+    if isinstance(grid, SymTensor):
+        raise Unsupported("grid_sample with a symbolic grid")
+    a = _obj(A(inp))
+    g = grid.detach().cpu().double().numpy()
+    N, C, H, W = a.shape
+    _, Ho, Wo, _ = g.shape
+    out = lift(np.zeros((N, C, Ho, Wo))).view(np.ndarray)
+
+    def unnorm(v, size):
+        return (v + 1) / 2 * (size - 1) if align_corners else ((v + 1) * size - 1) / 2
+
+    def snap(v):
+        r = round(v)
+        return float(r) if abs(v - r) < 1e-4 else v          # float32 grid arithmetic: a near-integer is the integer
+    for n in range(N):
+        for i in range(Ho):
+            for j in range(Wo):
+                x, y = snap(unnorm(g[n, i, j, 0], W)), snap(unnorm(g[n, i, j, 1], H))
+                x0, y0 = math.floor(x), math.floor(y)
+                for yy, wy in ((y0, 1 - (y - y0)), (y0 + 1, y - y0)):
+                    for xx, wx in ((x0, 1 - (x - x0)), (x0 + 1, x - x0)):
+                        w = wx * wy
+                        if w != 0 and 0 <= yy < H and 0 <= xx < W:
+                            out[n, :, i, j] = out[n, :, i, j] + a[n, :, yy, xx] * w
+    return T(out)
+
+
 @handler("index_put_", "index_put")
 def _index_put(x, indices, values, accumulate=False):
     idx = tuple(A(i) for i in indices)
@@ -890,6 +922,25 @@ class TorchProxy:
         if _has_sym(data) or isinstance(data, S) or is_sym(data):
             return T(_to_obj_nested(data))
         return torch.as_tensor(data, *a, **k)
+
+    # creation functions: float/complex results may later receive symbolic elements
+    def _create(self, fn, *a, **k):
+        r = fn(*a, **k)
+        if isinstance(r, torch.Tensor) and (r.is_floating_point() or r.is_complex()):
+            return SymTensor(lift(r.numpy()))
+        return r
+
+    def empty(self, *a, **k):
+        k.pop("device", None)
+        return self._create(torch.zeros, *a, **k)
+
+    def zeros(self, *a, **k):
+        k.pop("device", None)
+        return self._create(torch.zeros, *a, **k)
+
+    def ones(self, *a, **k):
+        k.pop("device", None)
+        return self._create(torch.ones, *a, **k)
 
     def from_numpy(self, a):
         if is_sym(a):
